@@ -10,6 +10,8 @@ OpSecs == {Absent, L(<<>>), L(<< <<>> >>), L(<< <<"A">> >>), L(<< <<"A", "B">> >
            \* "U" is a scheme name components.securitySchemes does not declare (document validation accepts that): an
            \* alternative naming it can never be satisfied, the others are unaffected
            L(<< <<"U">> >>), L(<< <<"U">>, <<"A">> >>), L(<< <<"A">>, <<"U">> >>), L(<< <<"A", "U">>, <<"B">> >>)}
+           \* (thorough) a requirement of three schemes: abandoned at its first, second or third scheme
+           \cup (IF Tier = "thorough" THEN {L(<< <<"A", "B", "C">> >>), L(<< <<"A", "B", "C">>, <<"C">> >>)} ELSE {})
 DocSecs == {<<>>, << <<"A">> >>, << <<"B">> >>, << <<"U">>, <<"B">> >>}
 
 P(in, name, kind) == [in |-> in, name |-> name, kind |-> kind]
@@ -32,9 +34,14 @@ ValuesOf(cfg, i) ==
 
 (* nilsec: the operation's (empty) security list is built in code as a pointer to a nil slice (var own                *)
 (* openapi3.SecurityRequirements; op.Security = &own) instead of being read from a document: still "declares none"    *)
-MkU(os, ds, acc, cfg, body, mu, xb, xq, rb, un) ==
+(* MkU: the operation declares a (required) body exactly when the request carries one (rounds 1-5); MkB: the           *)
+(* declaration and what the request carries vary independently                                                         *)
+MkB(os, ds, acc, cfg, bd, body, mu, xb, xq, rb, un) ==
    [nilsec |-> FALSE, unsized |-> un, opSec |-> os, docSec |-> ds, accepts |-> acc, pparams |-> ParamsOf(cfg, "p", 1), oparams |-> ParamsOf(cfg, "o", 1),
-    values |-> ValuesOf(cfg, 1), body |-> body, multi |-> mu, exclBody |-> xb, exclQuery |-> xq, authReadsBody |-> rb]
+    values |-> ValuesOf(cfg, 1), bdecl |-> bd, body |-> body, multi |-> mu, exclBody |-> xb, exclQuery |-> xq, authReadsBody |-> rb, hist |-> <<>>,
+    opts |-> "plain", prefs |-> "none"]
+MkU(os, ds, acc, cfg, body, mu, xb, xq, rb, un) ==
+   MkB(os, ds, acc, cfg, IF body = "none" THEN "none" ELSE "required", body, mu, xb, xq, rb, un)
 
 Mk(os, ds, acc, cfg, body, mu, xb, xq, rb) == MkU(os, ds, acc, cfg, body, mu, xb, xq, rb, FALSE)
 
@@ -42,8 +49,113 @@ NoParams == <<Inactive, Inactive, Inactive>>
 OneFailingQuery == <<[p |-> "none", o |-> "int", t |-> "x"], Inactive, Inactive>>
 PathLevelFailingQuery == <<[p |-> "int", o |-> "none", t |-> "x"], Inactive, Inactive>>
 
+Bodies == {"none", "empty", "pass", "fail", "otherct", "badjson"}
+BDecls == {"none", "optional", "required"}
+
+(* ---- histories: further validations in the same process (RequestCheck!View) ---- *)
+HKinds == {"none", "int", "reqint"}
+(* key 1 = query a with every level/kind/text; key 2 = header a, path-level only, never sent (so a required one fails) *)
+HCfg(p, o, p2) == <<[p |-> p, o |-> o], [p |-> p2, o |-> "none"], [p |-> "none", o |-> "none"]>>
+HValues(t) == IF t = "-" THEN <<>> ELSE <<V("query", "a", t)>>
+HBase(os, ds, acc, cfg, t, bd, body, mu) ==
+   [nilsec |-> FALSE, unsized |-> FALSE, opSec |-> os, docSec |-> ds, accepts |-> acc, pparams |-> ParamsOf(cfg, "p", 1), oparams |-> ParamsOf(cfg, "o", 1),
+    values |-> HValues(t), bdecl |-> bd, body |-> body, multi |-> mu, exclBody |-> FALSE, exclQuery |-> FALSE, authReadsBody |-> FALSE, hist |-> <<>>, opts |-> "plain", prefs |-> "none"]
+Step(via, os, ds, cfg, bd) == [via |-> via, pparams |-> ParamsOf(cfg, "p", 1), oparams |-> ParamsOf(cfg, "o", 1), opSec |-> os, docSec |-> ds, bdecl |-> bd]
+(* every history ends by going back to the first route (A-B-A): both "the first one seen wins" and "the last one seen  *)
+(* wins" show                                                                                                          *)
+WithHist(b, s) == [b EXCEPT !.hist = <<s, StepOf(b, "back")>>]
+HSecs == {Absent, L(<<>>), L(<< <<"A">> >>)}
+
+(* ---- the four parameter locations: the same name in path, cookie and header ---- *)
+LKeys == << <<"path", "a">>, <<"cookie", "a">>, <<"header", "a">> >>
+RECURSIVE ParamsOfK(_, _, _, _)
+ParamsOfK(keys, cfg, level, i) ==
+   IF i > Len(keys) THEN <<>>
+   ELSE (IF cfg[i][level] = "none" THEN <<>> ELSE <<P(keys[i][1], keys[i][2], cfg[i][level])>>) \o ParamsOfK(keys, cfg, level, i + 1)
+RECURSIVE ValuesOfK(_, _, _)
+ValuesOfK(keys, cfg, i) ==
+   IF i > Len(keys) THEN <<>>
+   ELSE (IF (cfg[i].p = "none" /\ cfg[i].o = "none") \/ cfg[i].t = "-" THEN <<>> ELSE <<V(keys[i][1], keys[i][2], cfg[i].t)>>) \o ValuesOfK(keys, cfg, i + 1)
+MkL(cfg, mu, xq) ==
+   [Mk(Absent, <<>>, {}, NoParams, "none", mu, FALSE, xq, FALSE) EXCEPT !.pparams = ParamsOfK(LKeys, cfg, "p", 1), !.oparams = ParamsOfK(LKeys, cfg, "o", 1),
+                                                                         !.values = ValuesOfK(LKeys, cfg, 1)]
+(* ---- scopes ---- *)
+ScopeSecs == {Absent, L(<< <<"A+r">> >>), L(<< <<"A+r">>, <<"A+w">> >>), L(<< <<"A+w", "B">>, <<"A">> >>), L(<< <<"A">>, <<"A+r">> >>)}
+
 VARIABLE case
 Init ==
+   \* location focus: path, cookie and header parameters of one name, every override pattern over at most two of them (a
+   \* path parameter is always required and always present: the route would not match otherwise)
+   \/ \E cfg \in [1..3 -> KeyCfgs], mu \in BOOLEAN :
+        /\ \E i \in 1..3 : cfg[i] = Inactive
+        /\ case = MkL(cfg, mu, FALSE)
+   \* reference focus: the parameters of a level are $refs to components.parameters (what overrides what is decided by
+   \* the name and location of the parameter referred to)
+   \/ \E cfg \in [1..3 -> KeyCfgs], pr \in {"path", "op", "both"}, mu \in BOOLEAN, xq \in BOOLEAN :
+        /\ \E i \in 1..3 : cfg[i] = Inactive
+        /\ (Tier = "quick" => ~xq /\ \E i, j \in 1..3 : i # j /\ cfg[i] = Inactive /\ cfg[j] = Inactive)
+        /\ case = [Mk(Absent, <<>>, {}, cfg, "none", mu, FALSE, xq, FALSE) EXCEPT !.prefs = pr]
+   \* scope focus: requirements that list scopes; the callback decides per (scheme, scopes)
+   \/ \E os \in ScopeSecs, ds \in {<<>>, << <<"A+w">> >>, << <<"A">> >>}, acc \in SUBSET {"A", "A+r", "A+w", "B"}, mu \in BOOLEAN :
+        case = Mk(os, ds, acc, NoParams, "none", mu, FALSE, FALSE, FALSE)
+   \* no authentication callback (Options.AuthenticationFunc nil, or no Options value at all): no scheme can be accepted,
+   \* so the security part passes exactly when the list in effect is empty or has an empty requirement
+   \/ \E os \in {Absent, L(<<>>), L(<< <<>> >>), L(<< <<"A">> >>), L(<< <<"A">>, <<>> >>), L(<< <<>>, <<"A">> >>), L(<< <<"A">>, <<"B">> >>)},
+         ds \in {<<>>, << <<"A">> >>, << <<>> >>, << <<"B">>, <<>> >>}, o \in {"nil", "nocallback"}, mu \in BOOLEAN,
+         cfg \in {NoParams, OneFailingQuery} :
+        /\ (o = "nil" => ~mu)
+        /\ case = [Mk(os, ds, {}, cfg, "none", mu, FALSE, FALSE, FALSE) EXCEPT !.opts = o]
+   \* options the statement does not mention (SkipSettingDefaults, ExcludeReadOnlyValidations) and no Options value at all
+   \/ \E o \in {"skipdefaults", "exclreadonly", "nil"}, k1 \in [p : {"none"}, o : {"int", "reqint", "reqintd"}, t : {"1", "x", "-"}],
+         k2 \in {Inactive, [p |-> "strx", o |-> "none", t |-> "1"]}, bd \in BDecls, body \in {"none", "pass", "fail"},
+         os \in {Absent, L(<<>>), L(<< <<"A">> >>)}, mu \in BOOLEAN, xb \in BOOLEAN :
+        /\ (o = "nil" => ~mu /\ ~xb)
+        /\ (Tier = "quick" => ~xb /\ bd # "optional")
+        /\ case = [MkB(os, <<>>, {}, <<k1, k2, Inactive>>, bd, body, mu, xb, FALSE, FALSE, FALSE) EXCEPT !.opts = o]
+   \* body focus: what the operation declares x what the request carries x exclusion x security outcome x multi-error
+   \/ \E bd \in BDecls, body \in Bodies, sec \in {"nosec", "pass", "fail"}, mu \in BOOLEAN, xb \in BOOLEAN, rb \in BOOLEAN, un \in BOOLEAN,
+         cfg \in {NoParams, OneFailingQuery} :
+        /\ (rb => sec # "nosec") /\ (un => body # "none")
+        /\ (Tier = "quick" => (cfg = OneFailingQuery => ~rb /\ ~un))
+        /\ case = MkB(IF sec = "nosec" THEN Absent ELSE L(<< <<"A">> >>), <<>>, IF sec = "pass" THEN {"A"} ELSE {},
+                      cfg, bd, body, mu, xb, FALSE, rb, un)
+   \* history focus, parameters: a second validation that sees other path-level parameters (through an alias path item
+   \* holding the same Operation value, or after an edit), other operation-level parameters (a sibling operation of the
+   \* same path item, or after an edit), then the first route again
+   \/ \E p \in HKinds, o \in HKinds, p2 \in {"none", "reqint"}, t \in {"1", "x", "-"},
+         q \in HKinds, r \in HKinds, q2 \in {"none", "reqint"}, via \in {"share", "sibling", "edit"}, mu \in BOOLEAN :
+        /\ <<p, o, p2>> # <<q, r, q2>>
+        /\ (via = "share" => r = o) /\ (via = "sibling" => q = p /\ q2 = p2)
+        /\ (Tier = "quick" /\ via = "edit" => (q = p /\ q2 = p2) \/ r = o)
+        /\ case = WithHist(HBase(Absent, <<>>, {}, HCfg(p, o, p2), t, "none", "none", mu),
+                            Step(via, Absent, <<>>, HCfg(q, r, q2), "none"))
+   \* history focus, chains (thorough): two further validations of different kinds before going back -- an edit seen
+   \* through the alias / by the sibling, an alias or sibling seen first and the edit after, alias and sibling in a row
+   \/ \E p \in HKinds, o \in HKinds, t \in {"x", "-"}, q \in HKinds, r \in HKinds, q1 \in HKinds, r1 \in HKinds,
+         chain \in {"edit-share", "edit-sibling", "share-edit", "sibling-edit", "share-sibling", "sibling-share"} :
+        /\ Tier = "thorough"
+        /\ LET b == HBase(Absent, <<>>, {}, HCfg(p, o, "none"), t, "none", "none", TRUE)
+               S(via, x, y) == Step(via, Absent, <<>>, HCfg(x, y, "none"), "none") IN
+           \/ chain = "edit-share"    /\ <<q, r>> # <<p, o>> /\ r1 = r /\ q1 # q /\ case = [b EXCEPT !.hist = <<S("edit", q, r), S("share", q1, r1), StepOf(b, "back")>>]
+           \/ chain = "edit-sibling"  /\ <<q, r>> # <<p, o>> /\ q1 = q /\ r1 # r /\ case = [b EXCEPT !.hist = <<S("edit", q, r), S("sibling", q1, r1), StepOf(b, "back")>>]
+           \/ chain = "share-edit"    /\ r = o /\ q # p /\ <<q1, r1>> # <<p, o>> /\ case = [b EXCEPT !.hist = <<S("share", q, r), S("edit", q1, r1), StepOf(b, "back")>>]
+           \/ chain = "sibling-edit"  /\ q = p /\ r # o /\ <<q1, r1>> # <<p, o>> /\ case = [b EXCEPT !.hist = <<S("sibling", q, r), S("edit", q1, r1), StepOf(b, "back")>>]
+           \/ chain = "share-sibling" /\ r = o /\ q # p /\ q1 = p /\ r1 # o /\ case = [b EXCEPT !.hist = <<S("share", q, r), S("sibling", q1, r1), StepOf(b, "back")>>]
+           \/ chain = "sibling-share" /\ q = p /\ r # o /\ r1 = o /\ q1 # p /\ case = [b EXCEPT !.hist = <<S("sibling", q, r), S("share", q1, r1), StepOf(b, "back")>>]
+   \* all three keys active (thorough): the override patterns of the parameter focus and of the location focus without the
+   \* "at most two" bound, multi-error mode so that every part shows
+   \/ \E cfg \in [1..3 -> KeyCfgs \ {Inactive}], xq \in BOOLEAN, loc \in BOOLEAN :
+        /\ Tier = "thorough" /\ (loc => ~xq)
+        /\ case = IF loc THEN MkL(cfg, TRUE, FALSE) ELSE Mk(Absent, <<>>, {}, cfg, "none", TRUE, FALSE, xq, FALSE)
+   \* history focus, security and body declaration: the sibling operation / the edited document has another security
+   \* list (operation or document level) or another requestBody declaration
+   \/ \E os \in HSecs, ds \in {<<>>, << <<"B">> >>}, os2 \in HSecs, ds2 \in {<<>>, << <<"B">> >>}, acc \in {{}, {"A"}, {"B"}},
+         bd \in BDecls, bd2 \in BDecls, body \in {"none", "pass", "fail"}, via \in {"sibling", "edit"}, mu \in BOOLEAN :
+        /\ <<os, ds, bd>> # <<os2, ds2, bd2>>
+        /\ (via = "sibling" => ds2 = ds)
+        /\ (Tier = "quick" => (bd2 # bd => os2 = os /\ ds2 = ds /\ acc = {}) /\ (bd2 = bd => bd = "none" /\ body = "none"))
+        /\ case = WithHist(HBase(os, ds, acc, HCfg("none", "none", "none"), "-", bd, body, mu),
+                            Step(via, os2, ds2, HCfg("none", "none", "none"), bd2))
    \* security focus
    \/ \E os \in OpSecs, ds \in DocSecs, acc \in SUBSET {"A", "B", "C"}, body \in {"none", "pass", "fail"},
          cfg \in {NoParams, OneFailingQuery}, mu \in BOOLEAN, rb \in BOOLEAN :
@@ -56,11 +168,12 @@ Init ==
    \/ \E cfg \in [1..3 -> KeyCfgs], sec \in {"nosec", "pass", "fail"}, body \in {"none", "pass", "fail"},
          mu \in BOOLEAN, xb \in BOOLEAN, xq \in BOOLEAN :
         /\ \E i \in 1..3 : cfg[i] = Inactive
-        /\ (Tier = "quick" => (sec # "pass" /\ (xb => body = "fail")))
+        \* quick slice: a failing security part only in multi-error mode (fail-first returns it before any parameter is looked at)
+        /\ (Tier = "quick" => (sec # "pass" /\ (xb => body = "fail") /\ (sec = "fail" => mu)))
         /\ case = Mk(IF sec = "nosec" THEN Absent ELSE L(<< <<"A">> >>), <<>>, IF sec = "pass" THEN {"A"} ELSE {},
                      cfg, body, mu, xb, xq, FALSE)
    \* requiredness focus: a (required) parameter, with or without a default, present / ill-typed / absent ("-")
-   \/ \E k1 \in [p : Kinds \cup {"reqint", "reqintd"}, o : Kinds \cup {"reqint", "reqintd"}, t : {"1", "x", "-"}],
+   \/ \E k1 \in [p : Kinds \cup {"reqint", "reqintd", "cint"}, o : Kinds \cup {"reqint", "reqintd", "cint"}, t : {"1", "x", "-"}],
          k2 \in {Inactive, [p |-> "none", o |-> "int", t |-> "1"]}, mu \in BOOLEAN, xq \in BOOLEAN :
         /\ ~(k1.p = "none" /\ k1.o = "none")
         /\ case = Mk(Absent, <<>>, {}, <<k1, k2, Inactive>>, "none", mu, FALSE, xq, FALSE)
